@@ -790,6 +790,10 @@ class DateTime(datetime.datetime, Date):
         if is_now:
             other = self.now()
 
+            if self.tzinfo is None:
+                # A naive value can only be compared with a naive one
+                other = other.naive()
+
         diff = self.diff(other)
 
         return pendulum.format_diff(diff, is_now, absolute, locale)
